@@ -250,6 +250,15 @@ def c02(scn, obs):
             bad.append(('stuck-running', 'state is still running although the child has exited'))
     # result / exception reported afterwards are those of that run
     exp = scn.get('meta', {}).get('expect_result')
+    if exp == 'KeyboardInterrupt' and any(
+            "UnboundLocalError: cannot access local variable 'entered'" in ' '.join(o['value'].get('exc') or [])
+            for o in obs if o.get('k') == 'pub' and o.get('topic') == 'run_info' and o['value']['state'] == 'finished'):
+        # one recorded class (known_findings.json): the signal arrived at the instant the dependency apluggy's
+        # stack_gen_ctxs generator had entered its `try` but not yet bound `entered`
+        return bad + [('interrupt:replaced-by-UnboundLocalError-in-apluggy-stack',
+                       'Ctrl-C while the script was busy: the run ended with "UnboundLocalError: cannot access local variable '
+                       "'entered'\" raised by apluggy/stack/sync.py (its finally block reads `entered`, which the interrupted try "
+                       'block had not bound yet) instead of the KeyboardInterrupt')]
     if exp is not None:
         r = next((o for o in reversed(obs) if o.get('k') == 'ret' and o.get('api') == 'result' and o.get('res') == 'ok'), None)
         if r is not None:
